@@ -67,6 +67,8 @@ def generate(R, tier, focus):
                     R.randint(0, len(inner['obs'][0]['events'])),
                     ['qedge%d' % k, gen.T0_MS + 7000 + k, lat_, lon_, 5.0,
                      gen.mag_in_bin(R, inner['mags'], R.randrange(nm_))])
+        if R.random() < 0.15:
+            inner['cell_scale'] = [R.choice((0.5, 1.0, 2.0, 3.25)) for _ in range(gen.n_cells(inner['region']))]
         channel = R.choice(('events', 'cells', 'cells'))
         if inner['obs'][0].get('edge_world'):
             channel = 'events'
@@ -89,6 +91,7 @@ def generate(R, tier, focus):
         if channel == 'cells' and gen.n_cells(inner['region']) > 1 and R.random() < 0.15 and not inner['region'].get('mask'):
             # only the benchmark forecast of the paired T-test lists its cells (and rates) in another order
             channel = 'bench_cells'
+            inner.pop('cell_scale', None)
             tests = [{'test': 'T', 'seed': 1, 'nsim': 1}]
     else:
         inner = fcsim.generate(R2, tier, 'C20')
@@ -155,6 +158,8 @@ def permuted(scn):
             w['region']['quadkeys'] = [w['region']['quadkeys'][i] for i in perm]
         if 'rates' in w:
             w['rates'] = [w['rates'][i] for i in perm]
+        if w.get('cell_scale'):
+            w['cell_scale'] = [w['cell_scale'][i] for i in perm]
         if 'bench' in w:
             w['bench'] = [w['bench'][i] for i in perm]
         info['perm'] = perm
@@ -197,15 +202,27 @@ def _inside(events, region):
     return [e for e in events if m[fcsim.cell_of(e, region)]]
 
 
+def _eff_rates(world):
+    cs = world.get('cell_scale')
+    if not cs:
+        return world['rates']
+    return [[v * cs[i] for v in row] for i, row in enumerate(world['rates'])]
+
+
 def make_fc(world, env):
     if env.get('delivery') == 'file':
         import csep
         env['n_files'] = env.get('n_files', 0) + 1
         path = env['store'].path('world_%d.dat' % env['n_files'])
         write_world_dat(path, world)
-        return csep.load_gridded_forecast(path, start_date=build.utc(world['start_ms']).replace(tzinfo=None),
-                                          end_date=build.utc(world['end_ms']).replace(tzinfo=None))
-    return build.make_gridded(world)
+        fc = csep.load_gridded_forecast(path, start_date=build.utc(world['start_ms']).replace(tzinfo=None),
+                                        end_date=build.utc(world['end_ms']).replace(tzinfo=None))
+    else:
+        fc = build.make_gridded(world)
+    if world.get('cell_scale'):
+        # the forecast was re-weighted cell by cell (an ndarray factor, listed in the same order as the cells)
+        fc.scale(numpy.array(world['cell_scale'], dtype=float).reshape(-1, 1))
+    return fc
 
 
 def make_obs(events, fc, env):
@@ -309,10 +326,10 @@ def _execute(scn, ctx, store, rng):
                 if test in ('BS', 'BCL', 'BRIER'):
                     counts = fcsim.grid_counts(_inside(world['obs'][0]['events'], world['region']), world['region'],
                                                world['mags'])
-                    fr = rngsim.flat_rates(test, world['rates'])
+                    fr = rngsim.flat_rates(test, _eff_rates(world))
                     fcn = rngsim.flat_counts(test, counts)
                     if int((fcn > 0).sum()) > int((fr > 0).sum()) or \
-                            rngsim.liveness_budget(test, world['rates'], int((fcn > 0).sum()), t['nsim']) >= 100000:
+                            rngsim.liveness_budget(test, _eff_rates(world), int((fcn > 0).sum()), t['nsim']) >= 100000:
                         outs = None
                         break
                 if objs is not None and which == 'perm' and 'cat' in objs:
